@@ -1,3 +1,5 @@
+import math
+
 import torch
 from torch.nn import functional as F
 
@@ -151,9 +153,13 @@ def quadratic_spline(
             (alpha * (input_right_heights - input_left_heights) + input_left_heights)
         )
 
+    # The spline is defined on the unit square; rescaling to the [left, right] x [bottom, top]
+    # box contributes (top - bottom) / (right - left) to the derivative.
     if inverse:
         outputs = outputs * (right - left) + left
+        logabsdet = logabsdet - math.log(top - bottom) + math.log(right - left)
     else:
         outputs = outputs * (top - bottom) + bottom
+        logabsdet = logabsdet + math.log(top - bottom) - math.log(right - left)
 
     return outputs, logabsdet
